@@ -589,6 +589,65 @@ class C10(Prop):
         return case.get("bucket")
 
 
+class C19(Prop):
+    id = "C19"
+    n_quick = 3000
+    n_thorough = 60000
+    required_theorems = ["C19_clean_rooted", "C19_contained", "C19_serve_inside", "C19_no_dir", "C19_cors", "C19_shape"]
+    rule = ("requests to the handler that Module.Configure registers on Module.DefaultMux (httptest, scratch working directory with frontend/dist, directories, and canary "
+            "files outside dist incl. prefix siblings dist.txt / distx/): paths from dot segments, encoded dots/separators/NUL, backslashes, doubled prefixes, /assets/ fragments, "
+            "directories with and without slash, index.html, missing files, through the mux and directly at the handler (bypassing the mux's own cleaning); Origin values "
+            "(members, non-members, a!b, empty, *, trailing slash, substrings, !) x whitelists (two entries, empty, *, with trailing slash, with *, empty string); plus "
+            "path.Clean vs the Lean model on random segment strings. Non-trivial: every case; distinct by case.")
+    assumptions = ["net/http (ServeMux cleaning, FileServer redirects, http.Dir), symlinks and OS path resolution are outside the model; the Lean model of path.Clean is tied to "
+                   "the standard library by correspondence on random strings"]
+
+    def compare(self, case, impl, model, spec):
+        if not isinstance(impl, dict) or impl.get("class") != "ok":
+            return False, False, "harness failure: %r" % (impl,)
+        if case["kind"] == "clean":
+            ok = impl.get("out") == (model or {}).get("out")
+            return ok, None, "path.Clean(/%s): go=%r lean=%r" % (case["s"], impl.get("out"), (model or {}).get("out"))
+        if impl.get("unparsable"):
+            return True, True, "unparsable request URI"
+        m = model or {}
+        detail = "%s direct=%s origin=%r wl=%s -> status=%s served=%r acao=%r | model %s acao=%r" % (
+            case["path"], case.get("direct"), case.get("origin"), case.get("whitelist"), impl.get("status"), impl.get("served"), impl.get("acao"),
+            json.dumps(m.get("served")), m.get("acao"))
+        # correspondence: CORS header always; the served file for requests that reach the handler directly
+        # the mux may answer by itself (redirect to the cleaned path) without calling the handler: then no header is expected
+        corr = impl.get("acao") == m.get("acao") if case.get("direct") else (impl.get("acao") is None or impl.get("acao") == m.get("acao"))
+        sv = m.get("served", {})
+        if case.get("direct"):
+            if sv.get("kind") == "file":
+                corr = corr and impl.get("status") == 200 and impl.get("served") == sv.get("rel")
+            else:
+                corr = corr and impl.get("status") != 200
+        elif impl.get("status") == 200:
+            corr = corr and sv.get("kind") == "file" and impl.get("served") == sv.get("rel")
+        # property oracle on the real response
+        prop = True
+        if impl.get("leaks"):
+            prop = False
+            detail += " | body contains outside file content %s" % impl["leaks"]
+        if impl.get("listing"):
+            prop = False
+            detail += " | directory listing"
+        if impl.get("status") == 200 and not impl.get("served"):
+            prop = False
+            detail += " | 200 whose body is not the content of a regular file inside dist"
+        want = (spec or {}).get("acao")
+        if impl.get("acao") is not None and impl.get("acao") != want:
+            prop = False
+            detail += " | Access-Control-Allow-Origin=%r, whitelist membership gives %r" % (impl.get("acao"), want)
+        return corr, prop, detail
+
+    def bucket(self, case, impl):
+        if case["kind"] == "clean":
+            return "clean"
+        return "asset/%s/%s" % ("direct" if case.get("direct") else "mux", (impl or {}).get("status"))
+
+
 WS = " \t\r\n"
 
 
@@ -647,4 +706,4 @@ class C13(Prop):
         return "%s/%s" % (case.get("from"), out_of((impl or {}).get("prod"))[0])
 
 
-PROPS = {p.id: p for p in [C01(), C02(), C03(), C04(), C05(), C06(), C07(), C09(), C10(), C11(), C12(), C13(), C16(), C17(), C18(), C20()]}
+PROPS = {p.id: p for p in [C01(), C02(), C03(), C04(), C05(), C06(), C07(), C09(), C10(), C11(), C12(), C13(), C16(), C17(), C18(), C19(), C20()]}
